@@ -143,6 +143,7 @@ def _sol(sol, nd=6):
 
 
 def analyses():
+    import cobra
     import cobra.flux_analysis as fa
     from cobra.flux_analysis import reaction as far
     from cobra.medium import minimal_medium
@@ -185,6 +186,16 @@ def analyses():
     reg("room", lambda m, rng, x: _sol(fa.room(m, solution=_ref(m, x), linear=False), 4))
     reg("geometric_fba", lambda m, rng, x: _sol(fa.geometric_fba(m), 4))
     reg("loopless_solution", lambda m, rng, x: _sol(fa.loopless_solution(m), 5))
+
+    def _with_nan(m):
+        """A flux distribution as users carry them along: taken earlier, re-indexed after the model got another reaction
+        - so one entry is NaN.  The analysis fails part-way (a NaN bound is refused); the model must be what it was."""
+        fl = fa.pfba(m).fluxes.copy()
+        if len(fl):
+            fl.iloc[len(fl) // 2] = float("nan")
+        return fl
+
+    reg("loopless_solution(fluxes with NaN)", lambda m, rng, x: _sol(fa.loopless_solution(m, fluxes=_with_nan(m)), 5))
     reg("single_gene_deletion", lambda m, rng, x: _del(fa.single_gene_deletion(m, processes=x["p"])), True)
     reg("single_reaction_deletion", lambda m, rng, x: _del(fa.single_reaction_deletion(m, processes=x["p"])), True)
     reg("double_gene_deletion", lambda m, rng, x: _del(fa.double_gene_deletion(m, processes=x["p"])), True)
@@ -288,7 +299,12 @@ def run_case(base, case, acc, A):
             if not cand:
                 continue
             victim = rng.choice(cand)
-            uni.add_reactions([victim.copy()])
+            vc = victim.copy()
+            if rng.random() < 0.5:
+                # the universal reaction's rule names a gene the model has never seen
+                vc.gene_reaction_rule = (vc.gene_reaction_rule + " or " if vc.gene_reaction_rule and rng.random() < 0.5 else "") + "g_only_in_universal"
+                acc.count("gapfill_universal_reactions_with_an_unknown_gene")
+            uni.add_reactions([vc])
             m_use.remove_reactions([victim])
             a2 = dict(aux, universal=uni, rxn_obj=None, met=None)
         else:
